@@ -15,7 +15,7 @@ from ..core import EPOCH, HarnessError, Violation
 from .peer import PeerSim, fix_time
 
 SESSION_TYPES = refframer.SESSION_TYPES
-SLOT_KINDS = ["app", "app", "app", "declined", "sess0", "sess1", "sessA", "sess2", "sess4", "sess5", "hole", "res_pd", "res_gf"]
+SLOT_KINDS = ["app", "app", "app", "app_pdN", "declined", "sess0", "sess1", "sessA", "sess2", "sess4", "sess5", "hole", "res_pd", "res_gf"]
 BIG = 2**62
 
 
@@ -40,6 +40,7 @@ def make_config(seed, tier="quick"):
         p_hook=r.choice([0.0, 0.0, 0.3]),
         p_pause=r.choice([0.0, 0.0, 0.2]),
         use_gap=r.random() < 0.3,
+        concurrent_sends=r.random() < 0.4,
         bounded=r.random() < 0.7,
         invalid=r.random() < 0.5,
         p_act=0.9,
@@ -97,13 +98,15 @@ class ResendSim(PeerSim):
             st = fix_time(EPOCH - 5000 + n)
             if kind == "hole":
                 continue
-            if kind in ("app", "declined"):
+            if kind in ("app", "declined", "app_pdN"):
                 body = [("11", f"J-{n}"), ("55", "ES"), ("54", "1"), ("38", n), ("44", "2.5")]
                 if kind == "declined":
                     body.append(("58", f"NOREPLAY {n}"))
                 else:
                     body.append(("58", f"text {n} a=b"))
-                fr = refframer.build("D" if n % 2 else "8", body, sender, target, n, st)
+                # app_pdN: an original transmission that spells out PossDupFlag=N
+                extra = (("43", "N"),) if kind == "app_pdN" else ()
+                fr = refframer.build("D" if n % 2 else "8", body, sender, target, n, st, header_extra=extra)
             elif kind == "res_pd":
                 # what an earlier (destructive) resend left behind: a PossDup copy
                 body = [("11", f"J-{n}"), ("55", "ES"), ("54", "1"), ("38", n), ("44", "2.5")]
@@ -114,7 +117,7 @@ class ResendSim(PeerSim):
             else:
                 t = kind[4:]
                 body = {"0": [], "1": [("112", f"X{n}")], "A": [("98", "0"), ("108", "30")],
-                        "2": [("7", "1"), ("16", "0")], "4": [("36", n + 1)], "5": []}[t]
+                        "2": [("7", "1"), ("16", "0")], "3": [("45", "1"), ("58", "rejected")], "4": [("36", n + 1)], "5": []}[t]
                 fr = refframer.build(t, body, sender, target, n, st)
             j.persist_msg(fr, sess, MessageDirection.OUTBOUND)
         if K:
@@ -137,6 +140,10 @@ class ResendSim(PeerSim):
             ConnectionState.ACTIVE, ConnectionState.RESENDREQ_AWAITING,
         )
 
+    def reply_parked(self):
+        return bool(self.pending_hooks) or any(
+            t is not None and t.paused and t.label == "E" for c in self.net.conns for t in c.tr)
+
     def quiet(self):
         """No reply in progress: request windows must not overlap other stimuli."""
         if any(t is not None and t.paused for c in self.net.conns for t in c.tr):
@@ -149,7 +156,10 @@ class ResendSim(PeerSim):
         if not self.peer.connected or not self.session_up():
             return out
         if self.rr_busy:
-            # a request is being served: its window must not overlap other stimuli
+            # a request is being served: the only stimulus that may overlap its window is an application
+            # send of the endpoint itself, while the reply is parked in a hook or in drain
+            if cfg.get("concurrent_sends") and self.n_live < cfg["n_live"] and self.reply_parked():
+                out.append((("live",), 2.0))
             return out
         if self.n_req < cfg["n_req"] and self.quiet():
             out.append((("rr",), 2.0))
@@ -185,8 +195,15 @@ class ResendSim(PeerSim):
                 if cfg["invalid"]:
                     es += [L + 1, L + 9, max(0, b - 1), -1]
                 e = r.choice(es)
+                if cfg["invalid"] and r.random() < 0.08:
+                    if r.random() < 0.5:
+                        b = r.choice(["abc", "", "1x"])
+                    else:
+                        e = r.choice(["abc", "", "0x"])
             return ["rr", b, e]
         if proto[0] == "live":
+            if self.rr_busy:
+                return ["live", r.choice(["app", "app", "declined"])]
             return ["live", r.choice(["app", "app", "declined", "testreq"])]
         if proto[0] == "gap":
             return ["gap", r.randint(2, 5)]
@@ -196,7 +213,8 @@ class ResendSim(PeerSim):
         if not self.peer.connected:
             return False
         if self.rr_busy:
-            return False
+            return (a[0] == "live" and a[1] in ("app", "declined") and bool(self.cfg.get("concurrent_sends"))
+                    and self.n_live < self.cfg["n_live"] and self.reply_parked())
         if a[0] == "rr":
             return self.n_req < self.cfg["n_req"]
         if a[0] == "live":
@@ -283,12 +301,20 @@ class ResendSim(PeerSim):
         b, e = snap["ent"]["spec"]["rr"]
         J = snap["journal"]
         L = snap["live_out"] - 1
+        numeric = isinstance(b, int) and isinstance(e, int)
+        shown = (b, e)
+        if not numeric:
+            b, e = -1, -1  # a request whose bounds are not numbers is an invalid request
         end = L if (e == 0 or e > L) else e
-        valid = b >= 1 and b <= end
+        valid = numeric and b >= 1 and b <= end
         R = range(b, end + 1) if valid else range(0)
         rkind = ("open" if e == 0 else ("bounded" if e <= L else "beyond")) if valid else "invalid"
+        # an application send of the endpoint itself may overlap the window (cfg concurrent_sends): an
+        # open-ended reply may then legitimately run on to what has been sent meanwhile
+        live_out_now = self.live().next_num_out
+        end_hi = end if (valid and e != 0 and e <= L) else max(end, live_out_now - 1)
         state0 = snap["state"].name
-        ctx = f"end={rkind}/state={state0}"
+        ctx = f"end={rkind if numeric else 'not-a-number'}/state={state0}"
         replies = []
         for (ev, cid, d, fr, dropped) in self.eut_writes():
             if snap["ev0"] < ev <= ev_end:
@@ -297,18 +323,25 @@ class ResendSim(PeerSim):
 
         def bad(clause, text, extra=""):
             raise Violation(clause, f"C06/{clause}/{ctx}{extra}",
-                            f"ResendRequest({b},{e}) with last sent {L}: {text}")
+                            f"ResendRequest({shown[0]!r},{shown[1]!r}) with last sent {L}: {text}")
 
         # side effects first (they hold for every request, valid or not)
         live_out = self.live().next_num_out
         stored_out = self.journal.stored()[1]
         chain = [(d, fr) for d, fr in replies if d.get("35") != "2"]
+        J_after = self.journal_out()
+        new_during = [int(d.get("34")) for d, fr in chain
+                      if d.get("35") != "4" and d.get("43") != "Y" and d.get("34", "").isdigit() and int(d.get("34")) > L]
+        if new_during:
+            self.probe("new_message_sent_while_a_request_was_being_served", len(new_during))
         # 1. the reply chain
         pos = b
         seen_retx = set()
         for d, fr in chain:
             t = d.get("35")
             n = int(d.get("34", "0"))
+            if t != "4" and d.get("43") != "Y" and n > L:
+                continue  # a new message the application sent meanwhile, not part of the reply
             if not valid:
                 bad("reply-to-invalid-request", f"invalid range answered with 35={t} 34={n}")
             if t == "4":
@@ -317,7 +350,7 @@ class ResendSim(PeerSim):
                 m = int(d.get("36", "0"))
                 if n != pos or m <= n:
                     bad("chain-broken", f"gap fill 34={n} 36={m} where the chain stood at {pos}")
-                if m > end + 1:
+                if m > end_hi + 1:
                     bad("reply-beyond-range", f"gap fill 34={n} 36={m} runs past requested end {end}")
                 pos = m
             else:
@@ -328,11 +361,11 @@ class ResendSim(PeerSim):
                     bad("retransmission-without-possdup", f"frame 35={t} 34={n} lacks PossDupFlag=Y")
                 if n != pos:
                     bad("chain-broken", f"retransmission 34={n} where the chain stood at {pos}")
-                if n > end:
+                if n > end_hi:
                     bad("reply-beyond-range", f"retransmission 34={n} past requested end {end}")
                 if t in SESSION_TYPES:
                     bad("session-message-retransmitted", f"35={t} 34={n} retransmitted")
-                orig = J.get(n)
+                orig = J.get(n) or (J_after.get(n) if n > L else None)
                 if orig is None:
                     bad("retransmitted-unknown", f"34={n} retransmitted but not in the journal")
                 od = refframer.fdict(orig)
@@ -346,7 +379,7 @@ class ResendSim(PeerSim):
                     bad("retransmission-body-differs", f"34={n}: body differs from the journaled message")
                 seen_retx.add(n)
                 pos = n + 1
-        if valid and pos != end + 1:
+        if valid and not (end + 1 <= pos <= end_hi + 1):
             if self.eut.connection_state > ConnectionState.DISCONNECTED_BROKEN_CONN:
                 bad("reply-incomplete", f"chain covers {b}..{pos - 1}, requested {b}..{end}")
         # 2. completeness: every replayable application message is retransmitted
@@ -364,13 +397,15 @@ class ResendSim(PeerSim):
             if n not in seen_retx and pos > n:
                 bad("message-gap-filled", f"journaled application message 34={n} was gap-filled instead of retransmitted")
         # 3. no side effects
-        if live_out != snap["live_out"]:
-            bad("next-out-changed", f"next outbound number {snap['live_out']} -> {live_out}")
-        if stored_out != snap["stored_out"]:
+        want_out = snap["live_out"] + len(new_during)
+        if live_out != want_out:
+            bad("next-out-changed", f"next outbound number {snap['live_out']} -> {live_out}"
+                + (f" ({len(new_during)} new message(s) were sent meanwhile)" if new_during else ""))
+        if stored_out != snap["stored_out"] + len(new_during):
             bad("stored-next-out-changed", f"stored next outbound number {snap['stored_out']} -> {stored_out}")
-        J2 = self.journal_out()
+        J2 = J_after
         for n in set(J) | set(J2):
-            if n in R:
+            if n in R or n in new_during:
                 continue
             if J.get(n) != J2.get(n):
                 what = "deleted" if n not in J2 else ("added" if n not in J else "rewritten")
